@@ -21,7 +21,9 @@ func u64() uint64 {
 	if core.W == nil {
 		return 0
 	}
-	core.W.Stats.Probes["mathrand-draws"]++
+	if core.W.Sched == nil {
+		core.W.Stats.Probes["mathrand-draws"]++
+	}
 	return core.W.Rand.Uint64()
 }
 
